@@ -95,18 +95,37 @@ def ref_decode(blob):
 
 # ---------------------------------------------------------------- case interpretation
 
+_VAL_CACHE = {}
+_RAW_CACHE = {}
+
+
 def val(v):
     """JSON value spec -> python value (str or bytes)"""
     if isinstance(v, str):
         return v
     if "rep" in v:
-        unit, n = v["rep"]
-        return val(unit) * n
+        key = core.jdump(v)
+        r = _VAL_CACHE.get(key)
+        if r is None:
+            if len(_VAL_CACHE) > 64:
+                _VAL_CACHE.clear()
+            unit, n = v["rep"]
+            r = _VAL_CACHE[key] = val(unit) * n
+        return r
     return core.jbytes(v)
 
 
 def raw(v):
-    return v.encode("utf8") if isinstance(v, str) else v
+    if isinstance(v, bytes):
+        return v
+    if len(v) < 1000:
+        return v.encode("utf8")
+    r = _RAW_CACHE.get(v)
+    if r is None:
+        if len(_RAW_CACHE) > 64:
+            _RAW_CACHE.clear()
+        r = _RAW_CACHE[v] = v.encode("utf8")
+    return r
 
 
 def build_prefix(spec):
@@ -140,7 +159,7 @@ def check_case(ctx, case):
     from pkgcore.binpkg import xpak
 
     prefix = build_prefix(case["prefix"])
-    has_fake = isinstance(case["prefix"].get("tail"), dict)
+    has_fake = isinstance(case["prefix"].get("tail"), dict) and "fake_trailer" in case["prefix"]["tail"]
     try:
         ref_decode(prefix)
         raise core.HarnessError("generated prefix accidentally parses as an xpak segment")
@@ -295,24 +314,26 @@ def bytes_json(b):
 
 
 def text_value():
-    return st.one_of(
+    small = [
         st.text(max_size=30),
         st.text(alphabet="aé€\U0001f600 \n\x00", max_size=12),
         st.sampled_from(["", "x", "0", "sys-apps/foo", "amd64 ~x86"]),
-        st.tuples(st.text(min_size=1, max_size=6), st.sampled_from([1500, 9000, 70000])).map(lambda t: {"rep": [t[0], t[1]]}),
-    )
+    ]
+    big = st.tuples(st.text(min_size=1, max_size=3), st.sampled_from([1500, 4100, 9000, 22000])).map(lambda t: {"rep": [t[0], t[1]]})
+    return st.one_of(*(small * 4 + [big]))
 
 
 def env_value():
-    return st.one_of(
+    small = [
         st.binary(max_size=60).map(bytes_json),
         st.binary(max_size=60).map(bytes_json),
         st.sampled_from([b"", b"BZh91AY&SY", b"\xff\xfe\x00", b"XPAKSTOP\x00\x00\x00\x00STOP", b"XPAKPACK"]).map(bytes_json),
         st.text(max_size=20),
-        st.tuples(st.binary(min_size=1, max_size=5), st.sampled_from([2000, 8192, 66000])).map(
-            lambda t: {"rep": [bytes_json(t[0]), t[1]]}
-        ),
+    ]
+    big = st.tuples(st.binary(min_size=1, max_size=5), st.sampled_from([2000, 8192, 33000])).map(
+        lambda t: {"rep": [bytes_json(t[0]), t[1]]}
     )
+    return st.one_of(*(small * 2 + [big]))
 
 
 @st.composite
@@ -352,7 +373,7 @@ def case_strategy():
 
 def plan(tier, seed):
     if tier == "quick":
-        return [{"task": "hyp", "examples": 350} for _ in range(16)]
+        return [{"task": "hyp", "examples": 250} for _ in range(16)]
     return [{"task": "hyp", "examples": 9000} for _ in range(32)]
 
 
